@@ -11,7 +11,7 @@
 (* completed / abandoned only when it is the innermost live one).            *)
 (* The requirement (TreeShape, C02) is checked on what the sink receives.    *)
 (***************************************************************************)
-EXTENDS Naturals, Integers, Sequences, FiniteSets, TLC
+EXTENDS Naturals, Integers, Sequences, FiniteSets, TLC, EventProc
 
 CONSTANTS MaxNT,     \* bound on the number of non-trivia raw tokens of the input
           MaxCalls,  \* bound on API calls
@@ -115,30 +115,6 @@ Spec == Init /\ [][Next]_vars
 (***************************************************************************)
 (* event::process: the Output steps                                          *)
 (***************************************************************************)
-RECURSIVE Chain(_, _, _, _)
-(* kinds along the forward-parent chain starting at event i.  process() replaces every event it has   *)
-(* consumed by a tombstone without forward parent: `dead` is the set of consumed start events.         *)
-Chain(ev, i, acc, dead) ==
-  IF i \in dead THEN Append(acc, "T")
-  ELSE LET e == ev[i] IN
-    IF e.fwd = 0 THEN Append(acc, e.kind) ELSE Chain(ev, i + e.fwd, Append(acc, e.kind), dead)
-RECURSIVE ChainIdx(_, _, _, _)
-ChainIdx(ev, i, acc, dead) == IF i \in dead \/ ev[i].fwd = 0 THEN acc \cup {i} ELSE ChainIdx(ev, i + ev[i].fwd, acc \cup {i}, dead)
-
-RECURSIVE Process(_, _, _)
-(* Process(ev, i, dead): steps for events i.. ; dead = start events already consumed through a chain *)
-Process(ev, i, dead) ==
-  IF i > Len(ev) THEN <<>>
-  ELSE LET e == ev[i] IN
-    CASE e.tag = "start" ->
-           IF i \in dead THEN Process(ev, i + 1, dead)
-           ELSE LET ks == Chain(ev, i, <<>>, dead)
-                    enters == [j \in 1..Len(ks) |-> ks[Len(ks) + 1 - j]]
-                    real == SelectSeq(enters, LAMBDA k : k # "T")
-                IN [j \in 1..Len(real) |-> [s |-> "enter", kind |-> real[j], n |-> 0]] \o Process(ev, i + 1, dead \cup ChainIdx(ev, i, {}, dead))
-      [] e.tag = "finish" -> << [s |-> "exit", kind |-> "-", n |-> 0] >> \o Process(ev, i + 1, dead)
-      [] e.tag = "token" -> << [s |-> "token", kind |-> "tok", n |-> e.n] >> \o Process(ev, i + 1, dead)
-      [] e.tag = "error" -> << [s |-> "error", kind |-> "-", n |-> 0] >> \o Process(ev, i + 1, dead)
 Output == Process(events, 1, {})
 
 (***************************************************************************)
@@ -190,11 +166,6 @@ Built == LET raw == RawTable(1) IN Build(Output, 0, "PendingEnter", <<>>, raw)
 (***************************************************************************)
 Finished == stack = <<>> /\ events # <<>> /\ events[1].tag = "start" /\ events[1].kind # "T" /\ events[1].fwd = 0
             /\ ~(\E i \in 2..Len(events) : FALSE)
-RECURSIVE Depths(_, _)
-Depths(sk, d) == IF sk = <<>> THEN <<>>
-                 ELSE LET x == sk[1]
-                          d2 == CASE x.s = "enter" -> d + 1 [] x.s = "exit" -> d - 1 [] OTHER -> d
-                      IN <<d2>> \o Depths(Tail(sk), d2)
 SinkTokens(sk) == SelectSeq(sk, LAMBDA x : x.s = "token")
 RECURSIVE Flatten(_)
 Flatten(ts) == IF ts = <<>> THEN <<>> ELSE ts[1].raw \o Flatten(Tail(ts))
